@@ -45,4 +45,12 @@ Definition check_connect : rd verdict :=
 
 Definition check : rd verdict :=
   kind <- getz ;;
-  if kind =? 1 then check_dns else if kind =? 2 then check_connect else fail.
+  if kind =? 1 then check_dns else if kind =? 2 then check_connect
+  else if kind =? 3 then
+    (ran <- getbool ;; keepalive <- getbool ;; n <- getz ;; okc <- getz ;; hits <- getlist getz ;;
+     (* the command's requests for the mapped address all succeeded at the replacements, and with
+        a connection per request (-keepalive=false, 30 requests) every replacement was used *)
+     ret (combine_verdicts
+       [ prop_ok 30 (ran && (0 <? n) && (okc =? n)) [n; okc];
+         prop_ok 31 (keepalive || forallb (fun h => 0 <? h) hits) hits ]))
+  else fail.
